@@ -182,3 +182,82 @@ async fn k11_zero_size_range_yields_empty_chunk() {
         .await;
     assert_eq!(got, vec![4, 0, 3]);
 }
+
+// ---- HTTP reader witnesses (K6, K12, K13): a raw HTTP/1.1 server that answers every Range request with the
+// requested bytes of `data` followed by `extra` bytes the client did not ask for.
+async fn overlong_server(data: Vec<u8>, extra: usize) -> u16 {
+    use tokio::io::{AsyncReadExt, AsyncWriteExt};
+    let listener = tokio::net::TcpListener::bind("127.0.0.1:0").await.unwrap();
+    let port = listener.local_addr().unwrap().port();
+    tokio::spawn(async move {
+        loop {
+            let (mut sock, _) = match listener.accept().await { Ok(x) => x, Err(_) => return };
+            let mut head = vec![];
+            let mut b = [0u8; 1];
+            while !head.ends_with(b"\r\n\r\n") { match sock.read(&mut b).await { Ok(1) => head.push(b[0]), _ => break } }
+            let text = String::from_utf8_lossy(&head).to_lowercase();
+            let range = text.lines().find(|l| l.starts_with("range:")).map(|l| l.trim_start_matches("range:").trim().to_string()).unwrap_or_default();
+            let v: Vec<u64> = range.trim_start_matches("bytes=").split('-').filter_map(|s| s.trim().parse().ok()).collect();
+            let (start, end) = if v.len() == 2 && v[0] <= v[1] { ((v[0] as usize).min(data.len()), (v[1] as usize + 1).min(data.len())) } else { (0, 0) };
+            let mut body = data[start..end.max(start)].to_vec();
+            body.extend(std::iter::repeat(0xEE).take(extra));
+            let _ = sock.write_all(format!("HTTP/1.1 206 Partial Content\r\nContent-Length: {}\r\nConnection: close\r\n\r\n", body.len()).as_bytes()).await;
+            let _ = sock.write_all(&body).await;
+            let _ = sock.shutdown().await;
+        }
+    });
+    port
+}
+
+fn http_reader(port: u16) -> bitar::archive_reader::HttpReader {
+    bitar::archive_reader::HttpReader::from_url(reqwest::Url::parse(&format!("http://127.0.0.1:{}/a", port)).unwrap())
+}
+
+// K6: a zero-size range reaches the deliver branch of ChunkReader::poll_read with no live request:
+// `self.num_adjacent_reads -= 1` underflows (panic with overflow checks).
+#[tokio::test]
+async fn k6_http_zero_size_chunk_does_not_panic() {
+    use bitar::archive_reader::ArchiveReader;
+    let port = overlong_server((0..50u8).collect(), 0).await;
+    let mut r = http_reader(port);
+    let got: Vec<Result<usize, String>> = r
+        .read_chunks(vec![bitar::ChunkOffset::new(5, 0), bitar::ChunkOffset::new(20, 3)])
+        .map(|c| c.map(|b| b.len()).map_err(|e| e.to_string()))
+        .collect()
+        .await;
+    assert!(got.iter().any(|g| g.is_err()) || got == vec![Ok(0), Ok(3)], "{:?}", got);
+}
+
+// K12: a response body longer than the requested range makes `self.size -= item.len()` underflow in
+// HttpRangeRequest::poll_read_fail (panic with overflow checks); without overflow checks the surplus bytes stay
+// in the chunk buffer and are delivered as the next chunk.
+#[tokio::test]
+async fn k12_http_overlong_body_does_not_panic() {
+    use bitar::archive_reader::ArchiveReader;
+    let data: Vec<u8> = (0..50u8).collect();
+    let port = overlong_server(data.clone(), 3).await;
+    let mut r = http_reader(port);
+    let got: Vec<Result<Vec<u8>, String>> = r
+        .read_chunks(vec![bitar::ChunkOffset::new(0, 4), bitar::ChunkOffset::new(10, 3)])
+        .map(|c| c.map(|b| b.to_vec()).map_err(|e| e.to_string()))
+        .collect()
+        .await;
+    assert!(got.iter().any(|g| g.is_err()) || got == vec![Ok(data[0..4].to_vec()), Ok(data[10..13].to_vec())], "{:?}", got);
+}
+
+// K13: a zero-size request at offset 0 makes `offset + size - 1` underflow when the Range header is built
+// (read_at via single_fail, read_chunks via poll_read_fail).
+#[tokio::test]
+async fn k13_http_zero_size_at_offset_zero_does_not_panic() {
+    use bitar::archive_reader::ArchiveReader;
+    let port = overlong_server((0..50u8).collect(), 0).await;
+    let mut r = http_reader(port);
+    let got = r.read_at(0, 0).await;
+    assert!(got.is_err() || got.unwrap().is_empty());
+    let got: Vec<Result<usize, String>> = r
+        .read_chunks(vec![bitar::ChunkOffset::new(0, 0)])
+        .map(|c| c.map(|b| b.len()).map_err(|e| e.to_string()))
+        .collect()
+        .await;
+    assert!(got.iter().any(|g| g.is_err()) || got == vec![Ok(0)], "{:?}", got);
+}
